@@ -102,7 +102,11 @@ class ScriptedPeer:
             att["replies"].append((now + l * TICK, self.reply_bytes(k, data, src)))
             return [(l, att["replies"][0][1])]
         if outcome == "I" and sock is not None:
-            self.w.loop.call_later(self._lat(k) * TICK, sock._icmp_error, ConnectionRefusedError(111, "Connection refused"))
+            # what the OS reports through error_received: port unreachable is a ConnectionError, host/net unreachable and
+            # "message too long" are plain OSErrors
+            errs = [ConnectionRefusedError(111, "Connection refused"), OSError(113, "No route to host"),
+                    OSError(101, "Network is unreachable"), OSError(90, "Message too long")]
+            self.w.loop.call_later(self._lat(k) * TICK, sock._icmp_error, errs[keyed(self.plan["latseed"], "err", k) % len(errs)])
         if outcome == "F" and sock is not None:
             self.w.loop.call_later(self._lat(k) * TICK, sock._fatal_error, OSError(101, "Network is unreachable"))
         return []
